@@ -578,6 +578,10 @@ std::vector<Workload> CuratedWorkloads() {
     w.gseed = ++gs;
     w.meta = 2;
     out.push_back(w);
+    // Two metadata blocks for one attribute.
+    w.gseed = ++gs;
+    w.meta = 3;
+    out.push_back(w);
   }
   {
     Workload w;
